@@ -133,6 +133,7 @@ private:
 		{
 			ASL_BAD_ALLOC();
 		}
+		ASL_VERIF_POINT(ASL_VP_THREAD_CREATED, this);
 	}
 	void run(Function_ f, ThreadAttrib& a , void* arg=0)
 	{
@@ -146,7 +147,9 @@ private:
 	static ASL_THREADFUNC_RET ASL_THREADFUNC_API begin(void* p)
 	{
 		Thread* t = (Thread*)p;
+		ASL_VERIF_POINT(ASL_VP_THREAD_ENTRY, t);
 		t->run();
+		ASL_VERIF_POINT(ASL_VP_THREAD_EXIT, t);
 		t->_threadFinished = true;
 		return 0;
 	}
@@ -154,21 +157,33 @@ private:
 	template<class Func>
 	static void ASL_THREADFUNC_API beginf(void* p)
 	{
+		ASL_VERIF_POINT(ASL_VP_THREAD_ENTRY, p);
 		Context<Func> s = *(Context<Func>*)p;
+		ASL_VERIF_POINT(ASL_VP_THREAD_READY, s.t);
+		ASL_VERIF_RELEASE(p);
+		ASL_VERIF_FLAG_WRITE_BEGIN();
 		((Context<Func>*)p)->ready = true;
+		ASL_VERIF_FLAG_WRITE_END();
 		s.f();
+		ASL_VERIF_POINT(ASL_VP_THREAD_EXIT, s.t);
 		s.t->_threadFinished = true;
 	}
 	template<class Func>
 	static void ASL_THREADFUNC_API beginfN(void* p)
 	{
 		if (!p) return;
+		ASL_VERIF_POINT(ASL_VP_THREAD_ENTRY, p);
 		Context<Func> s = *(Context<Func>*)p;
+		ASL_VERIF_POINT(ASL_VP_THREAD_READY, s.t);
+		ASL_VERIF_RELEASE(p);
+		ASL_VERIF_FLAG_WRITE_BEGIN();
 		((Context<Func>*)p)->ready = true;
+		ASL_VERIF_FLAG_WRITE_END();
 		for (int i = s.i0; i < s.i1; i += s.s)
 		{
 			s.f(i);
 		}
+		ASL_VERIF_POINT(ASL_VP_THREAD_EXIT, s.t);
 		s.t->_threadFinished = true;
 	}
 #endif
@@ -232,7 +247,9 @@ public:
 		WaitForSingleObject(_thread, INFINITE);
 #else
 		void* ret;
+		ASL_VERIF_POINT(ASL_VP_THREAD_JOIN, this);
 		pthread_join(_thread, &ret);
+		ASL_VERIF_POINT(ASL_VP_THREAD_JOINED, this);
 		_thread = 0;
 #endif
 	}
@@ -269,7 +286,11 @@ public:
 	{
 		Context<Func> s = { f, t, false, 0, 0, 0 };
 		t->run((Function_)Thread::beginf<Func>, (void*)&s);
+		ASL_VERIF_FLAG_READ_BEGIN();
 		while (!s.ready) {}
+		ASL_VERIF_FLAG_READ_END();
+		ASL_VERIF_ACQUIRE(&s);
+		ASL_VERIF_POINT(ASL_VP_THREAD_HANDOVER_DONE, t);
 		return *t;
 	}
 	/**
@@ -302,7 +323,11 @@ public:
 			threads << new Thread;
 			Context<F> s = { f, threads.last(), false, i0 + i, i1, n };
 			threads.last()->run((Function_)Thread::beginfN<F>, (void*)&s);
+			ASL_VERIF_FLAG_READ_BEGIN();
 			while (!s.ready) {}
+			ASL_VERIF_FLAG_READ_END();
+			ASL_VERIF_ACQUIRE(&s);
+			ASL_VERIF_POINT(ASL_VP_THREAD_HANDOVER_DONE, threads.last());
 		}
 		foreach(Thread* t, threads)
 		{
